@@ -26,6 +26,24 @@ CLAIMS = {
         "text": "Pop-heavy generated histories keep a local queue non-empty below capacity while the shared queue holds items: never 61 consecutive locally-served pops. Arbitrary histories with overflows and steals: a pop returns Some whenever any pushed item is still outstanding. Both queue types.",
         "note": "Single-threaded, so emptiness is exact; containers trusted.",
     },
+    "C07": {
+        "engine": "vcore C07",
+        "technique": PBT + ": model-based testing -- generated body and driver scripts interpreted against a reference model of the documented state graph and a recording Listener",
+        "text": "Every API call of a generated program (suspend, timed delay, syscall-state changes legal and illegal, running(), early resumes, cancel/panic/return) has a model-predicted result and listener record; recorded events must equal the prediction (each change once, right old/new, one matching specific callback, chain, due times), state() equals the model between steps, nothing changes after a terminal state. A Scheduler sub-run covers Suspend->Ready.",
+        "note": "Reference model = the graph in the statement; timing decisions keep 2-4 ms margins and skip ambiguous instants; each case on a fresh thread.",
+    },
+    "C08": {
+        "engine": "vcore C08",
+        "technique": PBT + ": round-trip oracle on generated coroutine bodies",
+        "text": "Generated Coroutine<u64,u64,u64> bodies (0..40 yields over all of u64, return or panic with &str/String/other payload at any step, panicking listeners, extra resumes): the body must see exactly the resume arguments, each resume must report exactly the yielded value, completion exactly once and sticky, panic -> Error(message) without unwinding.",
+        "note": "One coroutine at a time on a plain thread; payloads without a message only need Error(_).",
+    },
+    "C09": {
+        "engine": "vcore C09",
+        "technique": PBT + ": generated multi-coroutine yield programs with an exact per-yield oracle",
+        "text": "2..5 coroutines x 0..6 yields (plain / until(unique ts) / cancel, in Running and in syscall state) resumed in a generated order on one thread; each Running-state yield must report exactly its own request.",
+        "note": "Signal-driven cancel represented by a direct Suspender::cancel() call; fresh thread per case.",
+    },
     "C28": {
         "engine": "vcore C28",
         "technique": PBT + ": algebraic laws over boundary-biased generated Durations/timevals",
